@@ -136,21 +136,27 @@ impl fmt::Display for CellText {
 pub struct Text {
     pub start: Point,
     pub text: String,
+    /// the scale applied to this text so far, the width of a cell is multiplied with it
+    scale: f32,
 }
 
 impl Text {
     pub fn new(start: Point, text: String) -> Self {
-        Text { start, text }
+        Text {
+            start,
+            text,
+            scale: 1.0,
+        }
     }
 
-    /// get the textwidth in terms of cell grid points
+    /// get the textwidth in terms of cell grid points, at the scale of this text
     fn text_width(&self) -> f32 {
         let columns: usize = self
             .text
             .chars()
             .map(|ch| ch.width().unwrap_or(1).max(1))
             .sum();
-        columns as f32 * CellGrid::width()
+        columns as f32 * CellGrid::width() * self.scale
     }
 
     pub(crate) fn absolute_position(&self, cell: Cell) -> Self {
@@ -163,6 +169,7 @@ impl Text {
     pub(crate) fn scale(&self, scale: f32) -> Self {
         Text {
             start: self.start.scale(scale),
+            scale: self.scale * scale,
             ..self.clone()
         }
     }
